@@ -36,6 +36,49 @@ pub fn parts<'a>(cli: &'a Cli) -> Option<(Vec<Part<'a>>, &'static str, Vec<&'sta
             }));
             Some((parts, "cases: one body-bearing request (framing none / Content-Length / chunked with generated chunking, hex case, leading zeros, extensions / Content-Length+chunked / upgrade; length from the boundary set around 1024, 8192, 32768 or random) followed by 0-2 pipelined sentinels; read plan = generated buffer sizes incl. reads after end-of-stream; oracle: bytes read = designated body, sticky EOF, body_length(), sentinels intact; non-trivial: body >= 1 byte and (>= 3 reads or >= 2 chunks or > 1024 bytes)", sock_assumptions))
         }
+        "C01" => {
+            use proptest::prelude::*;
+            let strat = || {
+                (2usize..=5)
+                    .prop_flat_map(|n| (proptest::collection::vec(gen::finish_no_panic(), n), Just((0..n).collect::<Vec<usize>>()).prop_shuffle(), gen::transport_strategy(), proptest::collection::vec(prop_oneof![Just(0usize), Just(0usize), Just(10usize), Just(1024usize)], n)))
+                    .prop_map(|(fins, order, transport, bodies)| {
+                        let mut conv = vcore::wire::Conversation::default();
+                        let mut progs = vec![];
+                        for (i, (f, b)) in fins.into_iter().zip(bodies.into_iter()).enumerate() {
+                            let framing = if b > 0 { vcore::wire::Framing::Length { n: b } } else { vcore::wire::Framing::None };
+                            conv.reqs.push(gen::build_req(i as u32, if b > 0 { "POST".into() } else { "GET".into() }, String::new(), "HTTP/1.1", vec![vcore::wire::Hdr::new("Host", "h")], framing, None, 1, 0, None, false));
+                            // larger responses around the write buffer
+                            let f = match f {
+                                Finish::Respond { status, body_len, declared, threshold } => Finish::Respond { status, body_len: [body_len, 1023, 1024, 1025, 9000][i % 5], declared, threshold },
+                                o => o,
+                            };
+                            progs.push(Prog { read: ReadPlan::None, finish: f });
+                        }
+                        let total = gen::total_len(&conv);
+                        (ConvCase { conv, progs, script: vec![Step::Send { from: 0, to: total }, Step::HalfClose], transport }, order)
+                    })
+            };
+            parts.push(make_part("sock-threads", "CONV/sock", cli.cases(1_500, 150_000), strat, SockWorker::new, |w, (c, order)| {
+                let exp = expect(c);
+                let heads = |k: usize| exp.msgs.get(k).map(|m| m.head).unwrap_or(false);
+                let (mut obs, _) = w.run_with_order(c, &heads, Some(order));
+                if let Some(v) = engine_trouble(&obs) {
+                    return v;
+                }
+                obs.delivered.sort_by_key(|d| d.id.unwrap_or(u32::MAX));
+                if let Err(v) = prefix("C01", comp_delivery_sequence(c, &exp, &obs)) {
+                    return v;
+                }
+                let view = client_view(&obs.client, &exp);
+                if let Err(v) = prefix("C01", comp_client_stream(&exp, &obs, &view, exp.msgs.len(), false)) {
+                    return v;
+                }
+                let inv = order.iter().enumerate().any(|(i, x)| order[i + 1..].iter().any(|y| y < x));
+                let g = if inv { vcore::runner::Good::nontrivial() } else { vcore::runner::Good::trivial() };
+                vcore::runner::Verdict::Pass(g.class(format!("n={}", c.conv.reqs.len())).class(format!("transport:{:?}", c.transport)))
+            }));
+            Some((parts, "part sock-threads: 2-5 pipelined requests over real sockets, every request handled on its own OS thread (respond with sizes around the 1 KiB write buffer / raw writer in parts / drop), the threads enter their answer in a generated permutation; oracle: one message per request in request order on the client side; non-trivial: the permutation has an inversion", sock_assumptions))
+        }
         "C09" => {
             parts.push(make_part("sock", "CONV/sock", cli.cases(5_000, 300_000), move || gen::c09_strategy(max_len, gen::transport_strategy()), SockWorker::new, |w, c| {
                 let (exp, obs, nonce) = run_case(w, c);
